@@ -159,5 +159,39 @@ impl Options {
   ensures !r.create && !r.create_new && !r.append && !r.truncate && r.read, // [C09]
 //@@end
 
+// ---- C09: the writable open validates an existing file BEFORE it writes to it ---------------------------------------
+/// what the writable open does to the mapped file (trusted shim): any write sets `wrote`
+pub struct Os { pub wrote: Ghost<bool>, pub valid: Ghost<bool> }
+impl Os {
+  #[verifier::external_body]
+  pub fn file_write(&mut self, off: usize, n: usize)
+    ensures final(self).wrote@ == true, final(self).valid == old(self).valid,
+  { unimplemented!() }
+  /// `(*header_ptr).load_allocated()`: the cursor stored in the file (any value: the file is not validated yet)
+  #[verifier::external_body]
+  pub fn stored_cursor(&self) -> (r: usize) { unimplemented!() }
+  /// `sanity_check(Some(freelist), magic_version, &mmap[reserved..reserved + 8])`: Ok iff the identification bytes match
+  #[verifier::external_body]
+  pub fn sanity_check(&self, freelist: Freelist, magic_version: u16) -> (r: Result<Freelist, IoError>)
+    ensures r.is_ok() == self.valid@,
+  { unimplemented!() }
+}
+pub const CURRENT_VERSION: u16 = 0;
+
+//@@frag file=memory.rs scope="impl<R: RefCounter, PR: PathRefCounter, H: Header> Memory<R, PR, H> {" fn=map_mut_in from="/let \(version, magic_version\) = if create_new/" name=map_mut_in__init_or_validate params="st: &mut Os, create_new: bool, cap: usize, reserved: usize, data_offset: usize, min_segment_size: u32, freelist: Freelist, magic_version: u16" ret="Result<(u16, u16), IoError>" result="Ok((version, magic_version))" props=C09
+//@subst /ptr::write_bytes\(ptr, 0, cap\);/ => st.file_write(0, cap);
+//@subst /super::write_sanity\(\s*freelist as u8,\s*magic_version,\s*slice::from_raw_parts_mut\(ptr\.add\(reserved\), mem::align_of::<H>\(\)\),?\s*\);/ => st.file_write(reserved, 8);
+//@subst /header_ptr\.write\(Header::new\(data_offset as u32, min_segment_size\)\);/ => st.file_write(data_offset, 0);
+//@subst /let allocated = \(\*header_ptr\)\.load_allocated\(\) as usize;/ => let allocated = st.stored_cursor();
+//@subst /ptr::write_bytes\(ptr\.add\(allocated\), 0, cap - allocated as usize\);/ => st.file_write(allocated, cap - allocated as usize);
+//@subst /super::sanity_check\(\s*Some\(freelist\),\s*magic_version,\s*&mmap\[reserved\.\.reserved \+ mem::align_of::<H>\(\)\],?\s*\)\?;/ => st.sanity_check(freelist, magic_version)?;
+//@contract
+  requires !old(st).wrote@,
+  ensures
+    !create_new && !old(st).valid@ ==> r.is_err() && !final(st).wrote@, // [C09]
+    !create_new && old(st).valid@ ==> r.is_ok(), // [C09]
+    create_new ==> r.is_ok(), // [C09]
+//@@end
+
 } // verus!
 fn main() {}
